@@ -79,7 +79,7 @@ def temporal_dag(G, u, v=None, start=None, end=None):
 
     # adjusting temporal window
     start = list([i >= start for i in ids]).index(True)
-    end = end if end == ids[-1] else list([i > end for i in ids]).index(True)
+    end = len(ids) - 1 if end == ids[-1] else list([i > end for i in ids]).index(True) - 1
     ids = ids[start:end+1]
 
     # creating empty DAG
